@@ -15,9 +15,25 @@
 #include <memory>
 #include <sys/wait.h>
 
+#include <sys/syscall.h>
+#include <cerrno>
+
 using namespace CDNS;
 
 static std::string g_tmpdir;
+
+// Fault injection: the driver executable defines write(); the library's descriptor writer resolves to it.  While armed,
+// the g_fault_at-th write to any descriptor other than the trace's fails once (nothing is written).
+static int g_fault_at = 0;        // 0 = not armed
+static int g_fault_errno = EAGAIN;
+static int g_fault_seen = 0;
+static int g_trace_fd_guard = -1;
+extern "C" ssize_t write(int fd, const void* buf, size_t n) {
+    if (g_fault_at > 0 && fd > 2 && fd != g_trace_fd_guard) {
+        if (++g_fault_seen == g_fault_at) { g_fault_at = 0; errno = g_fault_errno; return -1; }
+    }
+    return syscall(SYS_write, fd, buf, n);
+}
 
 static std::string gunzip_or_unxz(const std::string& path, bool gz)
 {
@@ -109,6 +125,18 @@ struct Session {
 
     // one public write; a: 8-byte image / 0|1 / byte string
     void call(const std::string& op, uint64_t v, const std::string& s) {
+        try { call1(op, v, s); }
+        catch (std::exception& e) {
+            // the output rejected data (injected fault): log what reached the output during the failed call, then
+            // repeat the call - the fault is transient
+            json ev = {{"e", "X"}, {"op", op}, {"what", std::string(e.what()).substr(0, 120)}};
+            json d = delivered();
+            if (!d.is_null()) ev["d"] = d;
+            vh::trace().emit(ev);
+            call1(op, v, s);
+        }
+    }
+    void call1(const std::string& op, uint64_t v, const std::string& s) {
         std::size_t r = 0;
         json a;
         if (op == "arr")       { r = enc->write_array_start(v); a = vh::img8(v); }
@@ -256,6 +284,36 @@ static void sweep(const std::string& tier, uint64_t seed, unsigned shard, unsign
                     s.finish();
                 }
             }
+        }
+    }
+
+    // D. transient output faults: sequences of non-string operations on a descriptor output; the k-th write system call
+    //    of the sequence is rejected once (EAGAIN as on a full non-blocking pipe, ENOSPC), the call that got the
+    //    exception is repeated.  Nothing that a call appended before may be lost or doubled.
+    {
+        static const std::vector<std::string> NS = {"arr", "iarr", "map", "imap", "brk", "bool", "u8", "u16", "u32", "u64",
+                                                    "i8", "i16", "i32", "i64"};
+        unsigned nf = thorough ? 400 : scaled ? 120 : 60;
+        for (unsigned q = 0; q < nf; q++) {
+            uint64_t sub = rng();
+            if (!mine()) continue;
+            std::mt19937_64 r(sub);
+            Session s; s.start("fd");
+            s.fill_to(r() % (B + 1));
+            g_fault_seen = 0;
+            g_fault_errno = (q % 3 == 0) ? ENOSPC : EAGAIN;
+            g_fault_at = 1 + r() % 4;
+            unsigned len = static_cast<unsigned>(B / 2 + r() % (2 * B + 40));
+            for (unsigned i = 0; i < len; i++) {
+                const std::string& op = NS[r() % NS.size()];
+                auto vals = boundary_values(op);
+                uint64_t v = (r() % 2) ? vals[r() % vals.size()] : (r() >> (r() % 64));
+                s.call(op, v, "");
+                if (g_fault_at == 0 && (r() % 200) == 0) { g_fault_seen = 0; g_fault_at = 1 + r() % 3; }   // another one later
+            }
+            g_fault_at = 0;
+            if (q % 2) s.rotate();
+            s.finish();
         }
     }
 
